@@ -1001,4 +1001,36 @@ func TestVerifPickle(t *testing.T) {
 		}
 	}
 	flush("table", true, 0)
+	// (6) last, because a call that does not return cannot be stopped: a chain of tuples, each
+	// holding the previous one twice through the memo, used as a set element or a dict key. The
+	// input grows by four bytes per level.
+	bomb := func(levels int, asKey bool) []byte {
+		var b []byte
+		if asKey {
+			b = []byte{opEMPTY_DICT, opMARK}
+		} else {
+			b = []byte{opEMPTY_SET, opMARK}
+		}
+		b = append(b, opNONE, 0x85, opMEMOIZE) // (None,) is memo entry 0
+		for k := 0; k < levels; k++ {
+			b = append(b, opBINGET, byte(k), 0x86, opMEMOIZE) // (previous, previous)
+		}
+		if asKey {
+			return append(b, opNONE, opSETITEMS, opSTOP)
+		}
+		return append(b, opADDITEMS, opSTOP)
+	}
+	for _, c := range []struct {
+		levels int
+		key    bool
+	}{{8, false}, {8, true}, {14, false}, {48, false}, {48, true}} {
+		if hung {
+			break
+		}
+		if ev := decodeBytes(bomb(c.levels, c.key), "none"); ev != nil {
+			ev["shape"] = fmt.Sprintf("nested shared tuples, %d levels, hashed as a %s", c.levels, map[bool]string{false: "set element", true: "dict key"}[c.key])
+			batch = append(batch, ev)
+		}
+	}
+	flush("bomb", true, 0)
 }
